@@ -286,3 +286,120 @@ Proof.
     destruct (run_chunks dstate (astep ds) d1 ks) as [[d2 o2]|]; reflexivity.
   - destruct (astep ds d k) as [[d1 o1]|]; reflexivity.
 Qed.
+
+(* ---------------------------------------------------------------------------------------------
+   The decoder logic never raises an io::Error by itself (index problems are panics): a decision
+   program of the LZMA decoder run against the range decoder never returns Err.  The only error of
+   LZMADecoder::decode is the status "distance outside the dictionary" (E_OTHER). *)
+Inductive pne {A : Type} : prog A -> Prop :=
+| pne_ret a : pne (Ret a)
+| pne_fail e : (forall c, e <> Err c) -> pne (Fail e)
+| pne_bit key k : (forall b, pne (k b)) -> pne (Bit key k)
+| pne_direct n k : (forall v, pne (k v)) -> pne (Direct n k).
+
+Lemma run_rc_pne {A} (p : prog A) : pne p -> forall d t e, run_rc p d t <> Err e.
+Proof.
+  induction 1 as [a|e0 He|key k Hk IH|n k Hk IH]; intros d t e; cbn [run_rc].
+  - discriminate.
+  - destruct e0 as [u|c|c|]; try discriminate. exfalso. exact (He c eq_refl).
+  - destruct (decode_bit d t key) as [[[b d1] t1]|]; [apply IH | discriminate].
+  - destruct (decode_direct_bits d n 0) as [v d1]. apply IH.
+Qed.
+
+Lemma pne_bind {A B} (p : prog A) (f : A -> prog B) : pne p -> (forall a, pne (f a)) -> pne (pbind p f).
+Proof. intros H Hf; induction H; cbn [pbind]; try constructor; auto. Qed.
+
+Lemma pne_lift {A} (o : outcome A) : (forall c, o <> Err c) -> pne (lift o).
+Proof.
+  intros H. destruct o as [a|c|c|]; cbn [lift]; constructor; try discriminate.
+  exfalso. exact (H c eq_refl).
+Qed.
+
+Lemma key1_ne base len i c : key1 base len i <> Err c.
+Proof. unfold key1. destruct ((i <? 0) || (len <=? i)); discriminate. Qed.
+Lemma key2_ne base rows cols i j c : key2 base rows cols i j <> Err c.
+Proof. unfold key2. destruct ((i <? 0) || (rows <=? i) || (j <? 0) || (cols <=? j)); discriminate. Qed.
+Lemma lit_base_ne cd prev pos c : lit_base cd prev pos <> Err c.
+Proof.
+  unfold lit_base. destruct (8 <? c_lc cd); [discriminate|]. cbv zeta.
+  destruct (key1 0 _ _) as [a|e|e|] eqn:E; cbn [obind]; try discriminate.
+  exfalso. exact (key1_ne _ _ _ _ E).
+Qed.
+
+Lemma bittree_pne base levels : forall sym, pne (bittree base levels sym).
+Proof. induction levels as [|l IH]; intros sym; cbn [bittree]; constructor; auto. Qed.
+Lemma decode_bit_tree_pne base levels : pne (decode_bit_tree base levels).
+Proof. unfold decode_bit_tree. apply pne_bind; [apply bittree_pne | intros; constructor]. Qed.
+Lemma rev_bittree_pne base levels : forall sym i res, pne (rev_bittree base levels sym i res).
+Proof. induction levels as [|l IH]; intros sym i res; cbn [rev_bittree]; constructor; auto. Qed.
+Lemma lit_matched_pne lbase n : forall mb off sym, pne (lit_matched lbase n mb off sym).
+Proof. induction n as [|k IH]; intros mb off sym; cbn [lit_matched]; constructor; auto. Qed.
+Lemma lit_prog_pne lbase mb : pne (lit_prog lbase mb).
+Proof. destruct mb; cbn [lit_prog]; [apply lit_matched_pne | apply bittree_pne]. Qed.
+
+Lemma decode_len_pne base ps : pne (decode_len base ps).
+Proof.
+  unfold decode_len. constructor. intros c0. destruct (c0 =? 0).
+  - apply pne_bind; [apply pne_lift; intros c; apply key2_ne|]. intros low.
+    apply pne_bind; [apply decode_bit_tree_pne | intros; constructor].
+  - constructor. intros c1. destruct (c1 =? 0).
+    + apply pne_bind; [apply pne_lift; intros c; apply key2_ne|]. intros mid.
+      apply pne_bind; [apply decode_bit_tree_pne | intros; constructor].
+    + apply pne_bind; [apply decode_bit_tree_pne | intros; constructor].
+Qed.
+
+Lemma decode_match_pne c ps : pne (decode_match c ps).
+Proof.
+  unfold decode_match. cbv zeta.
+  apply pne_bind; [apply decode_len_pne|]. intros len.
+  apply pne_bind; [apply pne_lift; intros e; apply key2_ne|]. intros dsk.
+  apply pne_bind; [apply decode_bit_tree_pne|]. intros slot.
+  apply pne_bind; [|intros; constructor].
+  destruct (slot <? 4); [constructor|]. destruct (slot <? 14).
+  - apply pne_bind; [apply rev_bittree_pne | intros; constructor].
+  - constructor. intros v. apply pne_bind; [apply rev_bittree_pne | intros; constructor].
+Qed.
+
+Lemma decode_rep_match_pne c ps : pne (decode_rep_match c ps).
+Proof.
+  unfold decode_rep_match. cbv zeta.
+  apply pne_bind; [apply pne_lift; intros e; apply key1_ne|]. intros k0. constructor. intros b0.
+  destruct (b0 =? 0).
+  - apply pne_bind; [apply pne_lift; intros e; apply key2_ne|]. intros k0l. constructor. intros bl.
+    destruct (bl =? 0); [constructor|]. apply pne_bind; [apply decode_len_pne | intros; constructor].
+  - apply pne_bind; [apply pne_lift; intros e; apply key1_ne|]. intros k1. constructor. intros b1.
+    apply pne_bind.
+    + destruct (b1 =? 0); [constructor|].
+      apply pne_bind; [apply pne_lift; intros e; apply key1_ne|]. intros k2. constructor. intros b2.
+      destruct (b2 =? 0); constructor.
+    + intros c1. apply pne_bind; [apply decode_len_pne | intros; constructor].
+Qed.
+
+Lemma asym_pne c hist : pne (asym c hist).
+Proof.
+  unfold asym. cbv zeta.
+  apply pne_bind; [apply pne_lift; intros e; apply key2_ne|]. intros km. constructor. intros bm.
+  destruct (bm =? 0).
+  - apply pne_bind; [apply pne_lift; intros e; apply lit_base_ne|]. intros lbase.
+    apply pne_bind; [apply lit_prog_pne | intros; constructor].
+  - apply pne_bind; [apply pne_lift; intros e; apply key1_ne|]. intros kr. constructor. intros br.
+    apply pne_bind; [destruct (br =? 0); [apply decode_match_pne | apply decode_rep_match_pne] | intros; constructor].
+Qed.
+
+Lemma aproduce_pne n : forall s, pne (aproduce n s).
+Proof.
+  induction n as [|k IH]; intros s; cbn [aproduce]; [constructor|].
+  destruct (0 <? a_pend_len s); [apply IH|].
+  apply pne_bind; [apply asym_pne|]. intros r. destruct (snd r) as [b|dist len]; [apply IH|].
+  destruct (a_full s <=? dist); [constructor|]. destruct (len <=? 0); [constructor; discriminate | apply IH].
+Qed.
+
+(* the status of a specification run: Ok, or the distance error *)
+Lemma aproduce_status6 n : forall s, pall (fun r => snd r = Ok tt \/ snd r = Err E_OTHER) (aproduce n s).
+Proof.
+  induction n as [|k IH]; intros s; cbn [aproduce]; [constructor; left; reflexivity|].
+  destruct (0 <? a_pend_len s); [apply IH|].
+  eapply pall_bind; [apply pall_true|]. intros r _. destruct (snd r) as [b|dist len]; [apply IH|].
+  destruct (a_full s <=? dist); [constructor; right; reflexivity|].
+  destruct (len <=? 0); [constructor | apply IH].
+Qed.
